@@ -25,7 +25,7 @@ ASSUMPTIONS = [
     "the workflow, not the model, is under test: grid fits use a one-state linear model, 4-6 rows, 2 values per hyper-parameter",
 ]
 
-N = {"quick": {"grid": 3, "sm": 2, "small": 4}, "thorough": {"grid": 32, "sm": 16, "small": 32}}
+N = {"quick": {"grid": 4, "sm": 2, "small": 4}, "thorough": {"grid": 32, "sm": 16, "small": 32}}
 GRAPH = {"Start": ["Symbolic_Model"], "Symbolic_Model": ["Fit_Model"], "Fit_Model": []}
 TRANSITION = {("Start", "Symbolic_Model"): "symbolic_model", ("Symbolic_Model", "Fit_Model"): "fit_model"}
 
@@ -260,6 +260,19 @@ def _grid(R, rng, ctx):
     grid["innovation_filtering"] = iv
     X = data_for(rng, defn, rng.randint(5, 6))
     X[1::2, -1] *= 12.0  # outlier readings: rejected for small thresholds, used for large / disabled
+    mode = ("fields", "config1", "single", "config2")[ctx.get("_unit_i", 0) % 4]
+    R.stats.inc(f"grid_mode_{mode}")
+    if mode == "single":
+        # some hyper-parameters offer no choice (one value, not the default)
+        for k in ("max_dt_sec", "common_subexpression_elimination"):
+            vals = [v for v in pool[k] if v != defaults[k]]
+            grid[k] = [rng.choice(vals)]
+    elif mode in ("config1", "config2"):
+        # the whole configuration object as the hyper-parameter ('config' is a supported grid key)
+        def cfg(ivv):
+            return python.Config(innovation_filtering=ivv, max_dt_sec=rng.choice(pool["max_dt_sec"]),
+                                 common_subexpression_elimination=rng.random() < 0.5)
+        grid = {"config": [cfg(iv[0])] if mode == "config1" else [cfg(iv[0]), cfg(iv[1])]}
     _grid_once(R, rng, defn, b, grid, X, reverse=False)
     if ctx.get("_unit_i", 0) % 2 == 0:
         # same grid with every value list reversed: selection is by score, so for at least one of the
@@ -292,37 +305,58 @@ def _grid_once(R, rng, defn, b, grid, X, reverse):
         return
     gs = RECORDED[-1]
     R.stats.inc("grid_fits_checked")
+    FIELDS = ("innovation_filtering", "max_dt_sec", "common_subexpression_elimination")
+
+    def fields_of(params):
+        """configuration fields a parameter assignment specifies (a 'config' object specifies all of them)"""
+        out = {}
+        if "config" in grid and params.get("config") is not None:
+            out.update({f: getattr(params["config"], f) for f in FIELDS})
+        out.update({k: params[k] for k in grid if k in FIELDS and k in params})
+        return out
+
     for cand in gs.cv_results_["params"]:
         R.stats.inc("candidates_checked_in_grid")
         for k, vs in grid.items():
+            if k not in cand:
+                # an implementation may keep a hyper-parameter without choice out of the search as long as
+                # the estimators it scores and the exported filter carry that value (checked below)
+                continue
             if not any(cand.get(k) is v or cand.get(k) == v for v in vs):
                 R.add([K.V("grid:candidate-outside-grid", f"candidate {k}={cand.get(k)!r} is not in the supplied grid {vs}", **w)])
     # every candidate must have been evaluated as specified: some scored estimator carried exactly the
     # candidate's values of the searched configuration fields
     for cand in gs.cv_results_["params"]:
-        want = {k: cand[k] for k in grid}
+        want = fields_of({k: cand[k] for k in grid if k in cand})
+        # a grid value that was not handed to the candidate must still be what the estimator ran with
+        for k, vs in grid.items():
+            if k not in cand and len(vs) == 1:
+                want.update(fields_of({k: vs[0]}))
         if not any(all((sc.get(k) is v or sc.get(k) == v) for k, v in want.items()) for sc in SCORED):
             R.add([K.V("grid:candidate-not-evaluated-as-specified",
                        f"no scored estimator carried the candidate's hyper-parameters {want}; scored configurations: "
-                       f"{[dict(t) for t in {tuple(sorted((k, repr(v)) for k, v in sc.items() if k in grid)) for sc in SCORED}][:6]}", **w)])
+                       f"{[dict(t) for t in {tuple(sorted((k, repr(v)) for k, v in sc.items())) for sc in SCORED}][:6]}", **w)])
             break
     R.stats.inc("scored_estimators_observed", len(SCORED))
     best = gs.best_params_
-    if any(not (best.get(k) is vs[0] or best.get(k) == vs[0]) for k, vs in grid.items()):
+    if any(len(vs) > 1 and not (best.get(k) is vs[0] or best.get(k) == vs[0]) for k, vs in grid.items()):
         R.stats.inc("grid_fits_where_selected_is_not_first_value")
     for k, vs in grid.items():
-        if not any(best.get(k) is v or best.get(k) == v for v in vs):
+        if k in best and not any(best.get(k) is v or best.get(k) == v for v in vs):
             R.add([K.V("grid:selected-outside-grid", f"selected {k}={best.get(k)!r} is not in the supplied grid {vs}", **w)])
     exported = fms.export_python()
-    for k in grid:
+    # the exported filter carries the selected hyper-parameters; where the grid offered a single value,
+    # that value is the selected one whether or not the search lists it
+    selected = fields_of({k: (best[k] if k in best else grid[k][0]) for k in grid if k in best or len(grid[k]) == 1})
+    for k, v in selected.items():
         R.stats.inc("exported_config_fields_checked")
         got = getattr(exported.config, k)
-        if not (got is best[k] or got == best[k]):
-            R.add([K.V("grid:exported-config-differs", f"exported filter has {k}={got!r}, selected hyper-parameter is {best[k]!r}", **w)])
+        if not (got is v or got == v):
+            R.add([K.V("grid:exported-config-differs", f"exported filter has {k}={got!r}, selected hyper-parameter is {v!r}", **w)])
     if not R.samples:
         R.samples.append({"kind": "grid", "definition": K.brief_defn(defn), "grid": w["grid"], "rows": len(X),
-                          "selected": {k: repr(best[k]) for k in grid},
-                          "exported": {k: repr(getattr(exported.config, k)) for k in grid},
+                          "selected": {k: repr(v) for k, v in selected.items()},
+                          "exported": {k: repr(getattr(exported.config, k)) for k in selected},
                           "candidates": len(gs.cv_results_["params"])})
 
 
